@@ -6,7 +6,7 @@ DRIVER = "drv_layers"
 LEAN_MODULES = ["MesaModel.Props.C11", "MesaModel.Props.C18Layers"]
 _T = [
     "C11_reach_iff_history", "C11_descriptors_are_the_layer_dict", "C11_two_views_one_value", "C11_cell_write_read_through_layer",
-    "C11_layer_write_read_through_cell", "C11_value_changes_only_by_writes", "C11_read_after_write_persists",
+    "C11_layer_write_read_through_cell", "C11_single_cell_write_accepted_iff", "C11_value_changes_only_by_writes", "C11_read_after_write_persists",
     "C11_set_cells_pointwise", "C11_modify_cells_pointwise", "C11_attached_layers_have_entries",
     "C11_set_in_place_modify_repoints", "C11_modify_cell_pointwise", "C11_write_through_live_reference",
     "C11_create_default", "C11_detach_keeps_values",
@@ -16,7 +16,7 @@ _T = [
     "C11_reserved_names_are_cell_class_attributes", "C11_cell_protocol_names_reserved",
     "C11_builtin_empty_is_created_layer", "C11_layer_never_shadows_cell_attribute",
     "C11_assignment_cast_value", "C11_typed_cell_write_one_value", "C11_typed_layer_write_one_value",
-    "C11_set_cells_typed", "C11_modify_promotes_dtype", "C11_ufunc_result_types", "C11_modify_ufunc_typed",
+    "C11_set_cells_typed", "C11_modify_promotes_dtype", "C11_ufunc_result_types", "C11_modify_ufunc_typed", "C11_ufunc_mul_exact",
     "C11_dtype_changes_only_by_modify", "C11_modify_cell_typed", "C11_from_data_copies",
     "C11_within_radius_symmetric", "C11_neighborhood_mask_exact", "C11_select_within_saved_mask",
     "C11_shared_layer_second_grid", "C11_set_cells_array_pointwise",
@@ -58,7 +58,8 @@ TRUSTED = [
 ]
 ASSUMPTIONS = [
     "protocol preconditions answered by the harness without calling mesa (mirrored by the model): placing a placed agent, "
-    "moving/removing an unplaced one, entering a full cell (half-done moves are C06/C08/C18 material of other model groups), "
+    "moving/removing an unplaced one, entering an occupied SingleGrid cell by move_agent (half-done moves are C06/C08/C18 "
+    "material of other model groups; on a cell space the call is made and the cell's own refusal observed), "
     "cell-attribute access to names of the Cell class, unknown ids",
     "the emptiness theorems and the oracle's emptiness clause assume the *user* does not overwrite, re-point or remove the "
     "built-in `empty` layer / write through a reference that aliases the emptiness array (safeHist: judged in the state each "
@@ -76,7 +77,7 @@ ASSUMPTIONS = [
     "the attribute path (HasPropertyLayers.__getattr__)",
 ]
 RULE = ("random scenarios over the three grid families (new cell spaces: Moore/VonNeumann/Hex, 1-3 dimensions, sizes 1-4, "
-        "capacity None/1/2, torus or not; legacy SingleGrid/MultiGrid up to 4x4): 1-3 initial layers of dtype bool/int/float, "
+        "capacity None/0/1/2, torus or not; legacy SingleGrid/MultiGrid up to 4x4): 1-3 initial layers of dtype bool/int/float, "
         "then 8-35 ops from {create / free-standing layer (well- or mis-shaped, one in ten with a zero dimension and then a burst of bulk ops / reads on it: np.vectorize refuses conditions and Python functions there) / attach / detach, single-cell writes and "
         "reads through the layer and through the cell attribute, set_cells and modify_cells with and without condition, "
         "ufunc and Python-function operations, ~30% of all written values and modify operands being Python scalars of an "
@@ -249,6 +250,18 @@ def generate_rejecting(rng, tier, count):
 
 
 gen_tables = L.gen_tables
+
+
+def extra(ctx):
+    """says in the evidence where the reserved-name table came from: when the AST extractor does not recognise the shape of
+    `class Cell` it falls back to the probe (so that a harmless refactoring raises no alarm) and
+    C11_reserved_names_are_cell_class_attributes then compares the probe with itself"""
+    if L.TABLES_FROM == "unknown":
+        L.gen_tables()
+    ctx.cov["reserved_table_source"] = L.TABLES_FROM
+    if L.TABLES_FROM != "ast":
+        ctx.notes.append("reserved-name table taken from the probe (" + L.TABLES_FROM + "): "
+                         "C11_reserved_names_are_cell_class_attributes is circular in this run")
 run_impl = L.run_impl
 oracle = L.oracle
 tags = L.tags
